@@ -33,7 +33,7 @@ def make_classes():
                 if o.get(k) is not None:
                     kw[k] = o[k]
             for k in ('ref', 'ref0', 'res_ref'):
-                if o.get(k) is not None:
+                if o.get(k) is not None and not md.get('scale_api'):
                     v = o[k]
                     kw[k] = np.array([fl(x) for x in v['arr']]).reshape(o['shape']) if isinstance(v, dict) else fl(v)
             self.add_output(o['name'], val=np.array([fl(v) for v in o['val']]).reshape(o['shape']), **kw)
@@ -373,7 +373,7 @@ def build(md, cfg=None, setup=True):
                 o = md['outs'][oid]
                 kw = {'units': o['units']} if o['units'] else {}
                 for k in ('ref', 'ref0', 'res_ref'):
-                    if o.get(k) is not None:
+                    if o.get(k) is not None and not md.get('scale_api'):
                         v = o[k]
                         kw[k] = np.array([fl(x) for x in v['arr']]).reshape(o['shape']) if isinstance(v, dict) else fl(v)
                 ivc.add_output(o['name'], val=np.array([fl(v) for v in o['val']]).reshape(o['shape']), **kw)
@@ -385,6 +385,16 @@ def build(md, cfg=None, setup=True):
         else:
             mf = any(s == 'matfree' for row in c['storage'] for s in row)
             g.add_subsystem(c['name'], (MF if mf else Aff)(comp=c, md=md))
+    if md.get('scale_api'):
+        # solver scaling given after declaration
+        for o in md['outs']:
+            kw = {}
+            for k in ('ref', 'ref0', 'res_ref'):
+                if o.get(k) is not None:
+                    v = o[k]
+                    kw[k] = np.array([fl(x) for x in v['arr']]).reshape(o['shape']) if isinstance(v, dict) else fl(v)
+            if kw:
+                p.model.set_output_solver_options(out_path(md, o['id']), **kw)
     # connections
     shared = {}
     for i in md['ins']:
